@@ -11,15 +11,15 @@ from vlib import rng_for
 BASE = dict(n=(60, 1200))
 
 OPTS = {
-    "C01": dict(BASE, p_after=0.5, after_needs_products=False, p_skip=0.03, p_persist=0.03, p_k=0.05, p_m=0.03,
+    "C01": dict(BASE, p_after=0.5, p_shared_after=0.3, after_needs_products=False, p_skip=0.03, p_persist=0.03, p_k=0.05, p_m=0.03,
                 p_dry=0.05, p_prio=0.4, max_tasks=8, nprods=[1, 1, 0, 0, 2]),
     "C02": dict(BASE, n=(90, 2000), p_skip=0.04, p_fault=0.08, p_dry=0.08, max_builds=6, p_persist=0.06),
     "C03": dict(BASE, n=(90, 2000), p_skip=0.03, p_fault=0.05, p_dry=0.05, p_force=0.06, max_builds=6, min_builds=3),
-    "C04": dict(BASE, p_fault=0.3, p_maxfail=0.4, p_skip=0.03, p_k=0.05, p_m=0.03, p_dry=0.04, max_tasks=8, p_after=0.3,
+    "C04": dict(BASE, nprods=[1, 2, 2, 3, 0], p_fault=0.3, p_maxfail=0.4, p_skip=0.03, p_k=0.05, p_m=0.03, p_dry=0.04, max_tasks=8, p_after=0.3,
                 after_needs_products=False),
     "C06": dict(BASE, p_skip=0.15, p_skipif=0.2, p_k=0.45, p_m=0.35, p_mark=0.5, p_after=0.35, after_needs_products=False,
                 p_force=0.15, p_dry=0.15),
-    "C08": dict(BASE, p_fault=0.2, p_maxfail=0.2, illformed=0.12, p_after=0.3),
+    "C08": dict(BASE, nprods=[1, 2, 2, 3, 3], p_fault=0.3, p_maxfail=0.2, illformed=0.12, p_after=0.3),
     "C09": dict(BASE, illformed=0.55, p_after=0.4, max_builds=3, p_fault=0.03),
     "C10": dict(BASE, p_dry=0.45, p_persist=0.2, p_force=0.12, p_k=0.12, p_skip=0.06, p_fault=0.08),
     "C17": dict(BASE, p_persist=0.45, p_force=0.15, p_skip=0.06, p_k=0.1, p_fault=0.1, max_builds=6, min_builds=3),
@@ -47,6 +47,26 @@ for k in ("C01", "C04", "C06"):
     OPTS[k]["corpus"] = [f1_history()]
 for k in ("C08", "C09"):
     OPTS[k]["corpus"] = [f3_history()]
+
+
+def shared_after_history(rng):
+    """Several tasks share one `after` expression which also matches one of them."""
+    def tk(i, **kw):
+        d = {"id": i, "module": 1, "deps": [], "prods": [100 + i], "mver": 0, "skip": False, "skipifs": [], "persist": False, "prio": 0,
+             "marks": [], "attrs": [], "after_fn": [], "after_expr": None, "use_decorator": False}
+        d.update(kw)
+        return d
+    n = rng.randint(4, 7)
+    ids = list(range(1, n + 1))
+    rng.shuffle(ids)
+    a, b, rest = ids[0], ids[1], ids[2:]
+    word, mark = rng.choice([("slow", {"marks": ["slow"]}), ("special", {"attrs": ["special"]})])
+    tasks = [tk(a, after_expr=word, **mark), tk(b, **mark)]
+    for r in rest:
+        tasks.append(tk(r, after_expr=word if rng.random() < 0.7 else None, prio=rng.choice([0, 1, 1])))
+    rng.shuffle(tasks)
+    cfg = {"force": False, "dry_run": False, "max_failures": None, "expression": "", "marker_expression": "", "capture": "no"}
+    return {"ops": [{"op": "build", "tasks": tasks, "cfg": cfg, "faults": {}}], "sources": []}
 
 
 def c01_sorter(out, tier, seed):
@@ -87,3 +107,7 @@ def c10_twin(out, tier, seed):
 
 
 EXTRA = {"C01": [c01_sorter], "C10": [c10_twin]}
+
+import random as _random
+_r = _random.Random(12345)
+OPTS["C01"]["corpus"] = OPTS["C01"]["corpus"] + [shared_after_history(_r) for _ in range(25)]
